@@ -559,7 +559,7 @@ impl Round for Date {
     #[inline]
     fn round_century(self) -> Result<Self> {
         let input_year = self.year().unwrap();
-        if input_year > DATE_MAX_YEAR - 50 {
+        if input_year > DATE_MAX_YEAR - 49 {
             return Err(Error::DateOutOfRange);
         }
 
